@@ -19,6 +19,7 @@
 #include <dlfcn.h>
 #include <pthread.h>
 #include <semaphore.h>
+#include <sys/mman.h>
 
 namespace simrt { extern void (*g_heap_range_hook)(const void *, size_t); }
 
@@ -34,6 +35,7 @@ struct Thr {
     uint64_t steps = 0, budget = 0;
     uint32_t ev_in_op = 0;
     char *stack_lo = nullptr, *stack_hi = nullptr;
+    void *own_stack = nullptr;      // the caller thread's stack, mapped by us at an address derived from the seed (0 if that failed)
 };
 
 struct Rec { uint32_t clk; uint32_t ev; uint16_t op; uint8_t tid, mask, write, kind; };
@@ -280,7 +282,19 @@ void rt_run_threads(ThreadBody body, void *arg) {
     for (int k = 1; k <= G.nthreads; k++) {
         Thr &x = G.t[k];
         std::memcpy(x.vc, me->vc, sizeof x.vc); x.vc[k] = 1;           // thread start edge
-        pthread_create(&x.handle, nullptr, trampoline, &x);
+        // The identity of a caller thread (pthread_self(), std::this_thread::get_id() and whatever library code derives from it - a hash, a slot
+        // index) is the address of a block at the top of its stack. Left to the system it depends on what this process happened to map before:
+        // one more source of nondeterminism, and a replay in a fresh process would see other identities. So the stacks are ours, at addresses
+        // derived from the seed: identities vary from run to run and are the same whenever the seed is.
+        const size_t STK = (size_t)8 << 20;
+        pthread_attr_t at; pthread_attr_init(&at);
+        void *want = (void *)((uintptr_t)0x7d0000000000ull + (uintptr_t)k * 0x4000000000ull + (uintptr_t)(simrt::mix(G.sp.seed, 0x57ac, (uint64_t)k) % 65536) * 0x10000ull);
+        void *got = mmap(want, STK, PROT_READ | PROT_WRITE, MAP_PRIVATE | MAP_ANONYMOUS | MAP_STACK | MAP_FIXED_NOREPLACE, -1, 0);
+        if (got != MAP_FAILED && got != want) { munmap(got, STK); got = MAP_FAILED; }
+        x.own_stack = got == MAP_FAILED ? nullptr : got;
+        if (x.own_stack) pthread_attr_setstack(&at, x.own_stack, STK);
+        pthread_create(&x.handle, &at, trampoline, &x);
+        pthread_attr_destroy(&at);
         sem_wait(&me->sem);
     }
     me->vc[0]++;
@@ -291,7 +305,7 @@ void rt_run_threads(ThreadBody body, void *arg) {
     G.current = first;
     sem_post(&G.t[first].sem);
     sem_wait(&me->sem);                // returns when the last thread finished
-    for (int k = 1; k <= G.nthreads; k++) { pthread_join(G.t[k].handle, nullptr); vc_join(me->vc, G.t[k].vc); }
+    for (int k = 1; k <= G.nthreads; k++) { pthread_join(G.t[k].handle, nullptr); vc_join(me->vc, G.t[k].vc); if (G.t[k].own_stack) { munmap(G.t[k].own_stack, (size_t)8 << 20); G.t[k].own_stack = nullptr; } }
     self = me;
 }
 
